@@ -335,18 +335,25 @@ class Sim:
         boom = c.opts.get("boom")
         from dali import sequences as sq
         out = []
-        for i, it in enumerate(items):
-            if boom is not None and i == boom:
+        try:
+            for i, it in enumerate(items):
+                if boom is not None and i == boom:
+                    raise SeqBoom()
+                if it == "progress":
+                    yield sq.progress(message="p")
+                elif isinstance(it, tuple) and it[0] == "sleep":
+                    yield sq.sleep(it[1])
+                else:
+                    r = yield self.cmds[(c.tid, it)]
+                    out.append(self._summ(r))
+            if boom is not None and boom >= len(items):
                 raise SeqBoom()
-            if it == "progress":
-                yield sq.progress(message="p")
-            elif isinstance(it, tuple) and it[0] == "sleep":
-                yield sq.sleep(it[1])
-            else:
-                r = yield self.cmds[(c.tid, it)]
-                out.append(self._summ(r))
-        if boom is not None and boom >= len(items):
-            raise SeqBoom()
+        except GeneratorExit:
+            # option "cleanup_raises": a sequence whose clean-up fails when it is closed half-way (aborted by a
+            # cancellation or a lost gateway).  It still counts as a sequence that raises: the lock must be free.
+            if c.opts.get("cleanup_raises"):
+                raise SeqBoom()
+            raise
         return out
 
     @staticmethod
